@@ -5,6 +5,7 @@ package oracle
 import (
 	"fmt"
 	"reflect"
+	"strconv"
 
 	"github.com/tormoder/fit"
 
@@ -41,7 +42,16 @@ func FromMsg(msg reflect.Value) *fitmodel.IMsg {
 func Normalize(v fitmodel.Val, fi *fitmodel.FieldInfo) fitmodel.Val {
 	switch {
 	case fi.Kind == fitmodel.KindTimeLocal && v.K == 't':
-		return fitmodel.T(v.I+int64(v.Off), 0)
+		wall := v.I + int64(v.Off)
+		if strconv.IntSize == 32 {
+			// Where int has 32 bits a time.FixedZone cannot lie 2^31 s or
+			// more from UTC, so a local time that far from the file's
+			// reference timestamp has no representation there: in the
+			// GOARCH=386 run of the checks wall-clock readings are compared
+			// modulo 2^32 s (the stored 32-bit value is what is compared).
+			wall = int64(fitmodel.FitEpochUnix) + int64(uint32(wall-int64(fitmodel.FitEpochUnix)))
+		}
+		return fitmodel.T(wall, 0)
 	case v.K == 'a':
 		inv := fitmodel.ScalarInvalid(fitmodel.MustBase(fi.Base))
 		e := v.Elems
